@@ -164,7 +164,15 @@ class Model:
         if self.stub:
             self.p = None
             return
-        self.p = subprocess.Popen([VMODEL], stdin=subprocess.PIPE, stdout=subprocess.PIPE, text=True, bufsize=1)
+        # the extracted list functions are not tail recursive: a 640 KiB read needs more than the default 8 MiB stack
+        def big_stack():
+            import resource
+            soft, hard = resource.getrlimit(resource.RLIMIT_STACK)
+            try:
+                resource.setrlimit(resource.RLIMIT_STACK, (hard, hard))
+            except (ValueError, OSError):
+                pass
+        self.p = subprocess.Popen([VMODEL], stdin=subprocess.PIPE, stdout=subprocess.PIPE, text=True, bufsize=1, preexec_fn=big_stack)
 
     def cmd(self, line):
         if self.stub:
